@@ -19,13 +19,17 @@ pub fn escape(s: &str) -> String {
 		match c {
 			'\\' => out.push_str("\\\\"),
 			'\n' => out.push_str("\\n"),
+			'\r' => out.push_str("\\r"),
+			'\t' => out.push_str("\\t"),
+			'\0' => out.push_str("\\0"),
 			c => out.push(c),
 		}
 	}
 	out
 }
 
-/// `\\` → backslash, `\n` → newline, any other backslash pair is kept literally
+/// the escapes of the Tiny v2 format: `\\` → backslash, `\n` → newline, `\r` → carriage return, `\t` → tab, `\0` → NUL; any other
+/// backslash pair is kept literally
 pub fn unescape(s: &str) -> String {
 	let mut out = String::new();
 	let mut it = s.chars().peekable();
@@ -39,6 +43,18 @@ pub fn unescape(s: &str) -> String {
 				Some('\\') => {
 					it.next();
 					out.push('\\');
+				},
+				Some('r') => {
+					it.next();
+					out.push('\r');
+				},
+				Some('t') => {
+					it.next();
+					out.push('\t');
+				},
+				Some('0') => {
+					it.next();
+					out.push('\0');
 				},
 				_ => out.push('\\'),
 			}
